@@ -269,6 +269,8 @@ pub struct Report {
     pub viol_total: u64,
     pub classes: BTreeMap<String, u64>,
     pub viol_cap: usize,
+    /// class of a violation = its first n `|`-separated key parts (None: everything up to the last `|`)
+    pub class_parts: Option<usize>,
     pub assumptions: Vec<String>,
     pub extra: BTreeMap<String, Value>,
     pub exhaustive: bool,
@@ -291,7 +293,7 @@ impl Report {
             seed: std::env::var("VERIF_SEED").ok().and_then(|s| s.parse().ok()).unwrap_or(0),
             started: Instant::now(), evaluations: 0, transitions: 0, validated: 0,
             skipped: BTreeMap::new(), states: BTreeSet::new(), states_count_override: None, outcomes: BTreeMap::new(),
-            nontrivial: 0, rule: String::new(), samples: vec![], boxes: vec![], viols: vec![], viol_total: 0, classes: BTreeMap::new(), viol_cap: 400,
+            nontrivial: 0, rule: String::new(), samples: vec![], boxes: vec![], viols: vec![], viol_total: 0, classes: BTreeMap::new(), viol_cap: 400, class_parts: None,
             assumptions: vec![], extra: BTreeMap::new(), exhaustive: true, machinery_errors: vec![],
         }
     }
@@ -299,7 +301,7 @@ impl Report {
     pub fn viol(&mut self, v: Viol) {
         self.viol_total += 1;
         // class = key up to the last `|` (usually the rule without the word)
-        let class = v.key.rsplit_once('|').map(|x| x.0.to_string()).unwrap_or(v.key.clone());
+        let class = match self.class_parts { Some(n) => v.key.split('|').take(n).collect::<Vec<_>>().join("|"), None => v.key.rsplit_once('|').map(|x| x.0.to_string()).unwrap_or(v.key.clone()) };
         if self.classes.len() < 300 || self.classes.contains_key(&class) { *self.classes.entry(class).or_insert(0) += 1; }
         // keep one representative per key, at most 400 keys
         if self.viols.len() < self.viol_cap && !self.viols.iter().any(|x| x.key == v.key) {
